@@ -624,3 +624,14 @@ func classifySharded(c *Ctx, module, cfg string, lines []map[string]any, shards 
 	sort.Ints(bad)
 	return bad
 }
+
+func writeFileReplace(path, old, new string) error {
+	b, err := os.ReadFile(path)
+	if err != nil {
+		return err
+	}
+	if !strings.Contains(string(b), old) {
+		return fmt.Errorf("%s does not contain %q", path, old)
+	}
+	return os.WriteFile(path, []byte(strings.Replace(string(b), old, new, 1)), 0o644)
+}
